@@ -641,6 +641,8 @@ def suite_filter_tables(rng, n, stats, kinds=None):
                'l_out': lo, 'r_out': ro, 'n_jobs': nj, 'tokenizer': ts.describe(), 'toks': ts.table(strings_of(L0[la0], R0[ra0])),
                'out_sim_score': oss, 'cpu': common.CPU}
         req.update(d)
+        if bad:
+            req['_malformed'] = bad
         cases.append((req, exp, 'multiset' if kind in ('size', 'prefix') else None))
     return cases
 
@@ -734,6 +736,8 @@ def suite_filter_candset(rng, n, stats, kinds=None):
                'ltable': frame(L), 'rtable': frame(R), 'l_key': lk, 'r_key': rk, 'l_attr': la, 'r_attr': ra,
                'n_jobs': nj, 'tokenizer': ts.describe(), 'toks': ts.table(strings_of(L0[la0], R0[ra0])), 'cpu': common.CPU}
         req.update(d)
+        if bad:
+            req['_malformed'] = bad
         cases.append((req, exp, None))
     return cases
 
@@ -803,6 +807,8 @@ def suite_apply_matcher(rng, n, stats):
                'threshold': pyv(t), 'comp_op': op, 'allow_missing': am, 'l_out': lo, 'r_out': ro, 'out_sim_score': oss,
                'n_jobs': nj, 'tokenizer': ts.describe() if ts else None,
                'toks': ts.table(strings_of(L0[la0], R0[ra0])) if ts else None, 'sim': simtab, 'cpu': common.CPU}
+        if bad:
+            req['_malformed'] = bad
         cases.append((req, exp, None))
     return cases
 
@@ -823,6 +829,32 @@ def norm_scores(resp):
             if j < len(r) and isinstance(r[j], dict) and 'i' in r[j]:
                 r[j] = {'f': f2hex(float(r[j]['i']))}
     return resp
+
+
+DOCUMENTED_EXCEPTION = {'dup_l_key': 'AssertionError', 'nan_r_key': 'AssertionError', 'bad_l_attr': 'AssertionError', 'bad_r_key': 'AssertionError',
+                        'numeric_r_attr': 'AssertionError', 'not_frame_l': 'TypeError', 'bad_cand_key': 'AssertionError', 'not_frame_cand': 'TypeError',
+                        'empty_cand_dup_key': 'AssertionError', 'empty_cand_nan_key': 'AssertionError'}
+
+
+def malformed_accepted(cases):
+    """C15 on the malformed stream, independently of the model: a request into which ONE documented precondition
+    violation was injected must raise the documented exception class.  Returns violations (dicts)."""
+    out = []
+    for req, realr, _ in cases:
+        k = req.get('_malformed')
+        if not k:
+            continue
+        # the malformation may have been impossible to inject (too few rows): then the request is still valid
+        if k in ('dup_l_key', 'empty_cand_dup_key') and len((req.get('ltable') or {}).get('rows', [])) < 2:
+            continue
+        if k in ('nan_r_key', 'empty_cand_nan_key', 'numeric_r_attr') and len((req.get('rtable') or {}).get('rows', [])) < 1:
+            continue
+        want = DOCUMENTED_EXCEPTION[k]
+        got = realr.get('err') if isinstance(realr, dict) else None
+        if got != want:
+            out.append({'property': 'C15', 'what': 'invalid argument (%s) given to %s: expected %s, got %s' % (k, req.get('op'), want, got or 'a result'),
+                        'case': {'entry': 'malformed-request', 'request': req}, 'expected': want, 'actual': got})
+    return out
 
 
 def run_cases(cases):
